@@ -10,7 +10,7 @@
  *   pre : the node IS the cursor of the ghost walk (re-proved at the recursive call: the walk continues at the
  *         PARENT, right after the link of the child has been accepted by the list);
  *   post: OK => the cursor is at the root (every ancestor got its link; links == steps of the walk);
- *         the link accepted at the witness index g_q_w, if it was accepted during this call, describes its tree
+ *         the link accepted at the witness index, if it was accepted during this call, describes its tree
  *         step; a witness outside this call's range is not touched;
  *         every outcome => whatever the call created and did not release belongs to links the list accepted
  *         (nothing leaked, no reference kept, also on failure in the middle of the walk). */
@@ -18,8 +18,7 @@
 #ifndef CONTRACTS_TREE_BUILDER_QCHAIN_H
 #define CONTRACTS_TREE_BUILDER_QCHAIN_H
 
-#define QW_IN(n0) ((n0) <= g_q_w && g_q_w < g_q_n)
-#define QW_GOOD (IFF(g_qw.isLeft, g_qw.childIsLeft) && IFF(!g_qw.isLeft, g_qw.childIsRight) && \
+#define QW_GOOD (IFF(g_qw.isLeft, g_qw.childIsLeft) && (g_qw.childIsLeft || g_qw.childIsRight) && \
 	g_qw.imprint == g_qw.sibHash && IFF(g_qw.hasMd, g_qw.sibHasMd) && !g_qw.hasLegacy && \
 	g_qw.levelsAscend && (long long)g_qw.lc == g_qw.gap && g_qw.child != (const KSI_TreeNode *)0 && g_qw.parent != (const KSI_TreeNode *)0)
 #define QW_SAME (IFF(g_qw.isLeft, __CPROVER_old(g_qw.isLeft)) && g_qw.imprint == __CPROVER_old(g_qw.imprint) && \
@@ -38,19 +37,23 @@ __CPROVER_requires(links == NULL || links == g_q_list)
 /* (1) accepted => the walk has reached the root: every ancestor of the node has got its link, in order */
 __CPROVER_ensures(IMPLIES(__CPROVER_return_value == KSI_OK, node != NULL && links != NULL && g_q_walk_root))
 /* (2) a node without parent adds nothing and leaves the walk where it is */
-__CPROVER_ensures(IMPLIES(__CPROVER_return_value == KSI_OK && __CPROVER_old(g_q_walk_root), g_q_n == __CPROVER_old(g_q_n) && g_q_walk == node))
-__CPROVER_ensures(IMPLIES(__CPROVER_return_value == KSI_OK && !__CPROVER_old(g_q_walk_root), g_q_n != __CPROVER_old(g_q_n) && g_q_walk != node))
-/* (3) the link at the witness index describes its step of the walk; a witness outside the range is untouched */
-__CPROVER_ensures(IMPLIES(__CPROVER_return_value == KSI_OK && QW_IN(__CPROVER_old(g_q_n)), QW_GOOD))
-__CPROVER_ensures(IMPLIES(__CPROVER_return_value == KSI_OK && g_q_w == __CPROVER_old(g_q_n) && !__CPROVER_old(g_q_walk_root), g_qw.child == node))
-__CPROVER_ensures(IMPLIES(!QW_IN(__CPROVER_old(g_q_n)) && g_q_n >= __CPROVER_old(g_q_n), QW_SAME))
+__CPROVER_ensures(IMPLIES(__CPROVER_return_value == KSI_OK && __CPROVER_old(g_q_walk_root), g_q_n == __CPROVER_old(g_q_n) && g_q_walk == node &&
+		g_q_owned == __CPROVER_old(g_q_owned) && g_q_owned_href == __CPROVER_old(g_q_owned_href)))
+/* (3) the witness link (g_q_togo appends ahead when the call starts): if it was accepted during this call it
+ *     describes its step of the walk; a record not made in this call is untouched; while the witness has not been
+ *     reached every accepted link is counted down exactly once (so: more links than the witness index => recorded) */
+__CPROVER_ensures(IMPLIES(__CPROVER_return_value == KSI_OK && g_qw_set && !__CPROVER_old(g_qw_set), QW_GOOD))
+__CPROVER_ensures(IMPLIES(__CPROVER_return_value == KSI_OK && !__CPROVER_old(g_qw_set) && __CPROVER_old(g_q_togo) == 0 && !__CPROVER_old(g_q_walk_root), g_qw_set && g_qw.child == node))
+__CPROVER_ensures(IMPLIES(IFF(g_qw_set, __CPROVER_old(g_qw_set)), QW_SAME))
+__CPROVER_ensures(IMPLIES(__CPROVER_old(g_qw_set), g_qw_set && g_q_togo == __CPROVER_old(g_q_togo)))
+__CPROVER_ensures(IMPLIES(!g_qw_set, __CPROVER_old(g_q_togo) - g_q_togo == g_q_n - __CPROVER_old(g_q_n) && g_q_togo <= __CPROVER_old(g_q_togo)))
 /* (4) every outcome: nothing the call created survives outside the list; no hash reference is kept elsewhere */
 __CPROVER_ensures(Q_BALANCED)
 /* (5) bad arguments are refused before anything happens */
 __CPROVER_ensures(IMPLIES(node == NULL || links == NULL, __CPROVER_return_value == KSI_INVALID_ARGUMENT && g_q_n == __CPROVER_old(g_q_n) && g_q_walk == __CPROVER_old(g_q_walk)))
 /* (6) the walk only moves upwards through accepted links: failure leaves a prefix */
 __CPROVER_ensures(g_q_list == __CPROVER_old(g_q_list))
-__CPROVER_assigns(g_qc_live, g_qc_href, g_q_owned, g_q_owned_href, g_q_n, g_q_walk, g_q_walk_root, g_qw);
+__CPROVER_assigns(g_qc_live, g_qc_href, g_q_owned, g_q_owned_href, g_q_n, g_q_walk, g_q_walk_root, g_qw, g_q_togo, g_qw_set, g_qc_alloc_failed);
 #endif
 #else  /* QCHAIN_AFTER */
 #ifndef CONTRACTS_TREE_BUILDER_QCHAIN_AFTER_H
@@ -64,10 +67,10 @@ __CPROVER_assigns(g_qc_live, g_qc_href, g_q_owned, g_q_owned_href, g_q_n, g_q_wa
  *              the witness link describes its tree step (arbitrary index => every link);
  *         failure => *chain untouched, nothing created by the call survives, no hash reference is kept. */
 int KSI_TreeLeafHandle_getAggregationChain(const KSI_TreeLeafHandle *handle, KSI_AggregationHashChain **chain)
-__CPROVER_requires(handle == NULL || (handle->pBuilder != NULL && handle->pBuilder->ctx != NULL && handle->leafNode != NULL))
+__CPROVER_requires(handle == NULL || (handle->pBuilder != NULL && handle->leafNode != NULL))
 __CPROVER_requires(handle == NULL || (g_q_walk == handle->leafNode && IFF(g_q_walk_root, handle->leafNode->parent == NULL)))
 __CPROVER_requires(chain == NULL || chain == &g_q_chain_out)
-__CPROVER_requires(g_q_list == (void *)0 && g_q_n == 0 && g_q_owned == 0 && g_q_owned_href == 0)
+__CPROVER_requires(g_q_list == (void *)0 && g_q_n == 0 && g_q_owned == 0 && g_q_owned_href == 0 && !g_qw_set)
 __CPROVER_ensures(IMPLIES(__CPROVER_return_value == KSI_OK, handle != NULL && chain != NULL &&
 		*chain != __CPROVER_old(*chain) && *chain != NULL && (*chain)->ref == 1 &&
 		(*chain)->chain == g_q_list && g_q_list != NULL && g_q_walk_root))
@@ -78,14 +81,16 @@ __CPROVER_ensures(IMPLIES(__CPROVER_return_value == KSI_OK,
 __CPROVER_ensures(IMPLIES(__CPROVER_return_value == KSI_OK,
 		g_qc_live == __CPROVER_old(g_qc_live) + 3 + g_q_owned &&
 		g_qc_href == __CPROVER_old(g_qc_href) + g_q_owned_href + (handle->leafNode->hash != NULL)))
-__CPROVER_ensures(IMPLIES(__CPROVER_return_value == KSI_OK && IFF(handle->leafNode->parent == NULL, 1), g_q_n == 0 && g_q_owned == 0))
-__CPROVER_ensures(IMPLIES(__CPROVER_return_value == KSI_OK && handle->leafNode->parent != NULL, g_q_n != 0))
-__CPROVER_ensures(IMPLIES(__CPROVER_return_value == KSI_OK && g_q_w < g_q_n, QW_GOOD))
-__CPROVER_ensures(IMPLIES(__CPROVER_return_value == KSI_OK && g_q_w == 0 && g_q_n != 0, g_qw.child == handle->leafNode))
+__CPROVER_ensures(IMPLIES(__CPROVER_return_value == KSI_OK && handle->leafNode->parent == NULL, g_q_n == 0 && g_q_owned == 0))
+/* witness: index W = g_q_togo at the start.  recorded => it describes its step; NOT recorded => the chain has at most W links
+ * (every link was counted down), i.e. every index below the number of links is reached by some choice of W */
+__CPROVER_ensures(IMPLIES(__CPROVER_return_value == KSI_OK && g_qw_set, QW_GOOD))
+__CPROVER_ensures(IMPLIES(__CPROVER_return_value == KSI_OK && !g_qw_set, __CPROVER_old(g_q_togo) - g_q_togo == g_q_n && g_q_togo <= __CPROVER_old(g_q_togo)))
+__CPROVER_ensures(IMPLIES(__CPROVER_return_value == KSI_OK && __CPROVER_old(g_q_togo) == 0 && handle->leafNode->parent != NULL, g_qw_set && g_qw.child == handle->leafNode))
 __CPROVER_ensures(IMPLIES(__CPROVER_return_value != KSI_OK,
 		(chain == NULL || *chain == __CPROVER_old(*chain)) &&
 		g_qc_live == __CPROVER_old(g_qc_live) && g_qc_href == __CPROVER_old(g_qc_href)))
 __CPROVER_ensures(IMPLIES(handle == NULL || chain == NULL, __CPROVER_return_value == KSI_INVALID_ARGUMENT))
-__CPROVER_assigns(chain != NULL: *chain; g_qc_live, g_qc_href, g_q_owned, g_q_owned_href, g_q_n, g_q_walk, g_q_walk_root, g_qw, g_q_list);
+__CPROVER_assigns(chain != NULL: *chain; g_qc_live, g_qc_href, g_q_owned, g_q_owned_href, g_q_n, g_q_walk, g_q_walk_root, g_qw, g_q_togo, g_qw_set, g_q_list, g_qc_alloc_failed);
 #endif
 #endif
